@@ -5,6 +5,8 @@
  *   params                      -> "params dsz <sizeof(struct myth_thread)> fln <FREE_LIST_NUM> page <PAGE_SIZE>"
  *   idx S                       -> "idx <MYTH_MALLOC_SIZE_TO_INDEX(S)> rs <MYTH_MALLOC_INDEX_TO_RSIZE(idx)|ub>"
  *                                  or "idx undef" when the builtin's argument is 0
+ *   guard S                     -> "guard set <rc> <attr.stacksize afterwards> setstack <rc> <attr.stacksize afterwards>"
+ *                                  myth_thread_attr_setstacksize_body / _setstack_body on an attribute holding 777
  *   hist W : ops                -> one token per op, then " | " and the lengths of the mmap calls
  *        a<w>:<size>               myth_flmalloc(w, size)          -> r<k>+<off>   (k-th mmap region)
  *        f<w>:<h>:<size>           myth_flfree(w, size, result of the h-th alloc op) -> f
@@ -90,6 +92,14 @@ int main(void) {
         if (idx >= 0 && idx <= 30) printf("idx %d rs %lld\n", idx, (long long)MYTH_MALLOC_INDEX_TO_RSIZE(idx));
         else printf("idx %d rs ub\n", idx);
       }
+    } else if (strcmp(tok, "guard") == 0) {
+      size_t sz = strtoull(strtok(NULL, " \n"), NULL, 10);
+      myth_thread_attr_t a1, a2; int r1, r2;
+      memset(&a1, 0, sizeof(a1)); memset(&a2, 0, sizeof(a2));
+      a1.stacksize = 777; a2.stacksize = 777;
+      r1 = myth_thread_attr_setstacksize_body(&a1, sz);
+      r2 = myth_thread_attr_setstack_body(&a2, (void *)0, sz);
+      printf("guard set %d %zu setstack %d %zu\n", r1, (size_t)a1.stacksize, r2, (size_t)a2.stacksize);
     } else if (strcmp(tok, "hist") == 0) {
       int W = atoi(strtok(NULL, " \n"));
       reset(W);
